@@ -22,14 +22,14 @@ CHECKS = {
          "seen (including rejected candidates); failed operations diffed against the pre-state; constructor failures observed through a factory.",
          "runtime monitor: reference model + lookup sweep + failed-call ledger diff"),
  "C04": ("Runtime monitoring: for every conforming hub delivery, 31 classes of single-deviation deliveries (each with the approval that matches "
-         "it otherwise) are executed against the real service at a checkpoint and must fail without touching the ledger; the conforming delivery "
-         "must take effect exactly once (also after re-approval and after every temporary entry has expired); payloads are built with the independent ABI encoder.",
+         "it otherwise; fields of up to 17 000 bytes; mixed-case chain names) are executed against the real service at a checkpoint and must fail without touching the ledger; the conforming delivery "
+         "must take effect exactly once (also after re-approval and after every temporary entry has expired); payloads are built with the independent ABI encoder; a service wired to a stand-in gateway answering with non-booleans must not act.",
          "runtime monitor: single-deviation delivery variants vs reference model + failed-call ledger diff + exactly-once"),
  "C05": ("Runtime monitoring: balance/custody/supply model over all (token, holder) pairs stepped with outbound and approved inbound transfers, "
          "trusted-chain changes, holders' burns, minter mints, redelivery of executed transfers and ledger advancement (up to the expiry of every temporary entry) over service-deployed (tree code) and canonical tokens; the "
          "announcement to the hub is compared with the independent ABI encoder and Keccak; offline conservation checker per token.",
          "runtime monitor: balance/custody reference model + announcement oracle + offline conservation"),
- "C06": ("Runtime monitoring, finite matrix enumerated completely: 38 administrative entry points x 5 role-transfer histories x up to 8 principals; "
+ "C06": ("Runtime monitoring, finite matrix enumerated completely: 43 administrative entry points (incl. migrate after the ownership moved inside the window) x 5 role-transfer histories x up to 8 principals x roles initially distinct / in one hand; "
          "the authorisation forest the code asks for is recorded and replayed with the principal substituted (or withheld, or recorded for other "
          "arguments) at a checkpoint; refused calls diffed against the pre-state; roles re-read after 1.3 M ledgers and after every temporary entry has expired.",
          "runtime monitor: recorded-authorisation replay with principal substitution over the full entry-point x principal x history matrix"),
@@ -38,7 +38,7 @@ CHECKS = {
          "allowance / with minter or owner as spender / negative mints where nobody may succeed, states in which the named address has pre-approved the contracts involved, plus the contract-as-caller variant through a forwarding proxy.",
          "runtime monitor: recorded-authorisation replay with authoriser substitution over the entry-point x authoriser matrix + proxy variant"),
  "C08": ("Runtime monitoring, exhaustive within stated bounds: every rotation history of bounded length for every retention setting (0 .. u64::MAX) "
-         "and number of initial sets, with ledger advancement between steps; after every step every installed set is probed on every path with fresh proofs and with byte-identical "
+         "and number of initial sets, plus sampled long histories (20..45 rotations, retention around 16 and 33), with ledger advancement between steps; after every step every installed set is probed on every path with fresh proofs and with byte-identical "
          "earlier proofs / approval calls, and compared with current_epoch - epoch <= retention.",
          "runtime monitor: bounded-exhaustive history enumeration with per-step probes of every installed set"),
  "C09": ("Runtime monitoring, exhaustive within stated bounds: every sequence of (boundary-relative ledger time x rotation kind) per minimum delay "
@@ -118,7 +118,7 @@ manifest = {
     "checks": checks,
     "notes": ("All 18 properties are decided by runtime monitors written for this task (no Miri/ASan: the nightly toolchain cannot build the Soroban dependency tree offline; valgrind memcheck is used for C10). "
               "Two genuine defects were repaired in /repo with 'fix:' commits (ff606be C12, 03dc987 C16); two are recorded in KNOWN_FINDINGS.txt (C04, C11) because their repair would break the unedited suite. "
-              "Sensitivity is documented in DESIGN.md §10: 140 hand mutants, 126 independently written and confirmed seeded changes under seeded/, 13 property-preserving changes that must stay silent."),
+              "Sensitivity is documented in DESIGN.md §10: 140 hand mutants, 162 independently written and confirmed seeded changes under seeded/, 13 property-preserving changes that must stay silent."),
     "not_applicable": [],
 }
 json.dump(manifest, open(os.path.join(ROOT, "MANIFEST.json"), "w"), indent=1)
